@@ -8,6 +8,7 @@ import (
 	"strings"
 	"sync"
 	"sync/atomic"
+	"time"
 
 	"github.com/RoaringBitmap/roaring/v2"
 	segment "github.com/blevesearch/scorch_segment_api/v2"
@@ -132,7 +133,10 @@ func checkC20(c *ctx) {
 	c.Exhaustive = true
 	// histories with readers in between: a full read, a merge taking the segment as input that
 	// completes, one that is abandoned (close channel fired) and one whose output cannot be created
-	useNames := []string{"Read", "MergeOK", "MergeAbandoned", "MergeBadPath"}
+	useNames := []string{"Read", "MergeOK", "MergeAbandoned", "MergeBadPath", "MergeAllDeleted"}
+	// the second input of the merges in which every document of the held segment is deleted
+	other, _, err := zh.Build(zh.GenBatch(c.R, zh.RandOpts(c.R, 3, "o")), 1026)
+	must(err)
 	hist := c.n(40, 600)
 	for k := 0; k < hist; k++ {
 		s, err := zh.Plugin.Open(path)
@@ -148,7 +152,7 @@ func checkC20(c *ctx) {
 			case x < 5 && (cnt > 1 || len(ops) > 4):
 				ops, kinds, cnt = append(ops, 1), append(kinds, c.R.Intn(2)), cnt-1
 			default:
-				ops, kinds = append(ops, 2), append(kinds, c.R.Intn(4))
+				ops, kinds = append(ops, 2), append(kinds, c.R.Intn(5))
 			}
 		}
 		for cnt > 0 {
@@ -158,6 +162,24 @@ func checkC20(c *ctx) {
 		var names []string
 		var fail string
 		uses := 0
+		// a reader object obtained once and used for as long as the segment is held
+		var held segment.TermDictionary
+		if len(want.Dicts) > 0 {
+			held, err = seg.Dictionary(want.Dicts[0].Field)
+			must(err)
+		}
+		useHeld := func() string {
+			if held == nil {
+				return ""
+			}
+			for _, th := range want.Dicts[0].Terms {
+				hits, cnt, err := zh.ReadPostings(held, []byte(th.Term), nil)
+				if err != nil || cnt != uint64(len(th.Hits)) || len(hits) != len(th.Hits) {
+					return fmt.Sprintf("a TermDictionary of field %q obtained right after Open no longer answers: term %q gives %d postings, Count %d (err %v), want %d", want.Dicts[0].Field, th.Term, len(hits), cnt, err, len(th.Hits))
+				}
+			}
+			return ""
+		}
 		for i, o := range ops {
 			var derr error
 			switch o {
@@ -196,6 +218,15 @@ func checkC20(c *ctx) {
 					if err == nil {
 						os.Remove(out)
 					}
+				case 4:
+					out := zh.TmpPath("refm")
+					all := roaring.New()
+					all.AddRange(0, seg.Count())
+					_, _, err := zh.Plugin.Merge([]segment.Segment{seg, other}, []*roaring.Bitmap{all, nil}, out, nil, nil)
+					if err != nil {
+						fail = fmt.Sprintf("after %v: merge of a held segment with every document deleted failed: %v", names, err)
+					}
+					os.Remove(out)
 				case 3:
 					out := filepath.Join(zh.TmpDir(), "no-such-dir", "x.zap")
 					_, _, err := zh.Plugin.Merge([]segment.Segment{seg}, []*roaring.Bitmap{nil}, out, nil, nil)
@@ -212,6 +243,18 @@ func checkC20(c *ctx) {
 			}
 			if fail == "" && derr != nil {
 				fail = fmt.Sprintf("%v: the last call returned error %v", names, derr)
+			}
+			if fail == "" && expMapped {
+				func() {
+					defer func() {
+						if r := recover(); r != nil {
+							fail = fmt.Sprintf("after %v: using a TermDictionary obtained right after Open panics: %v", names, r)
+						}
+					}()
+					if bad := useHeld(); bad != "" {
+						fail = fmt.Sprintf("after %v: %s", names, bad)
+					}
+				}()
 			}
 			if fail != "" {
 				break
@@ -310,6 +353,13 @@ func checkC20(c *ctx) {
 					runtime.Gosched()
 				}
 				var err error
+				// the holders' first thesaurus lookups arrive at the same instant too
+				if len(want.Thes) > 0 {
+					if _, terr := zh.DumpThesaurus(seg, want.Thes[0].Name, nil); terr != nil {
+						errc <- terr
+						return
+					}
+				}
 				if closeIt {
 					err = seg.Close()
 				} else {
@@ -322,7 +372,14 @@ func checkC20(c *ctx) {
 			runtime.Gosched()
 		}
 		atomic.StoreInt32(&gate, 1)
-		wg.Wait()
+		finished := make(chan struct{})
+		go func() { wg.Wait(); close(finished) }()
+		select {
+		case <-finished:
+		case <-time.After(30 * time.Second):
+			c.Violation(fmt.Sprintf("C20 %d holders make their first thesaurus lookup at the same instant and then drop their references (trial %d): after 30 s they have not finished - a lock is never released, so the final release can never run", g, k), false)
+			return
+		}
 		close(errc)
 		c.Count("simultaneous_last_drops")
 		for e := range errc {
